@@ -106,7 +106,7 @@ pub enum Error {
         "ByteArray",
         hex::encode(.1),
         "Allowed",
-        .1.len() - 1
+        .1.len().saturating_sub(1)
     )]
     ByteStringOutOfBounds(BigInt, Vec<u8>),
     #[error(
